@@ -37,6 +37,23 @@ def regenerate_src():
         T = srctrans.generate(core.REPO, os.path.join(core.CACHE, "srctrans-%d" % os.getpid()))
         text = T.emit()
         note = "GeneratedSrc.lean: %d functions translated from the clang AST, %d outside the subset" % (len(T.order), len(T.failed))
+        from . import srcobj
+        po = os.path.join(core.LEAN, "AsamCmp", "GeneratedSrcObj.lean")
+        try:
+            OT = srcobj.ObjTranslator(T, "ASAM::CMP::Encoder")
+            OT.run()
+            otext = ("/- GENERATED on every run by vlib/srcobj.py from the typed clang AST of /repo/src/encoder.cpp — do not edit. -/\n"
+                     "import AsamCmp.GeneratedSrc\nimport AsamCmp.Src.Obj\nset_option linter.unusedVariables false\nnamespace AsamCmp.SrcGen\n"
+                     "open AsamCmp AsamCmp.Src\n\n" + OT.emit() + "\nend AsamCmp.SrcGen\n")
+            note += "; GeneratedSrcObj.lean: %d Encoder methods translated as state transformers, %d not" % (len(OT.order), len(OT.failed))
+        except srctrans.Untranslatable as e:
+            otext = "/- GENERATED: the object translator could not run: %s -/\nimport AsamCmp.Src.Obj\nnamespace AsamCmp.SrcGen\nend AsamCmp.SrcGen\n" % str(e).replace("-/", "- /")[:400]
+            note += "; GeneratedSrcObj.lean: object translator failed (%s)" % str(e)[:120]
+        oldo = open(po).read() if os.path.exists(po) else None
+        if oldo != otext:
+            with core.Lock("lake"):
+                with open(po, "w") as f:
+                    f.write(otext)
         from . import srcfields
         ftext, nprog, nent, notes = srcfields.generate(T)
         note += "; GeneratedSrcFields.lean: %d bit programs, %d field-accessor entries, %d accessors not covered" % (nprog, nent, len(notes))
